@@ -66,6 +66,34 @@ def _corruptions(trace):
     return out
 
 
+def diagnose(stage, trace):
+    """Name the failing clause of a rejected trace: re-run TLC on that single trace with the property invariants as
+    INVARIANTs (instead of folded into the constraint).  Returns a short text; never changes a verdict."""
+    import re
+    import tempfile
+    try:
+        spec_dir = h.tlc.SPEC_DIR
+        cfg = open(os.path.join(spec_dir, stage.trace[1])).read()
+        m = re.search(r'^TraceConstraint\s*==(.*?)(?=^\S|\Z)', open(os.path.join(spec_dir, stage.trace[0] + '.tla')).read(), re.S | re.M)
+        names = [n for n in re.findall(r'[A-Za-z_][A-Za-z_0-9]*', m.group(1) if m else '') if n != 'Progress']
+        body = cfg.replace('CONSTRAINT TraceConstraint', 'CONSTRAINT Progress') + ''.join('INVARIANT %s\n' % n for n in names)
+        d = tempfile.mkdtemp(prefix='diag_')
+        cfgp = os.path.join(d, 'diag.cfg')
+        open(cfgp, 'w').write(body)
+        tf = os.path.join(d, 'trace.json')
+        json.dump([trace], open(tf, 'w'))
+        r = h.tlc.run_tlc(stage.trace[0], cfgp, workers=1, env={'TRACE_FILE': tf}, timeout=300)
+        import shutil
+        shutil.rmtree(d, ignore_errors=True)
+        if r.violated:
+            return 'property clause %s of %s is false in the state reached by the recorded events' % (', '.join(r.violated), stage.trace[0][:-5] + '.tla')
+        if r.tagnums.get('REJ'):
+            return 'no action of %s allows this event in the reached state (the recorded step is not a behaviour of the specification)' % (stage.trace[0][:-5] + '.tla')
+        return 'accepted when the property clauses are not enforced (rejected by the conjunction of clauses)'
+    except Exception as e:   # diagnostics only
+        return 'diagnosis unavailable (%s)' % type(e).__name__
+
+
 class Outcome:
     def __init__(self):
         self.states = 0
@@ -179,7 +207,7 @@ def run_stage(stage, tier, seed, out, replay_scenarios=None):
         t = traces[i]
         out.rejected.append({'stage': stage.name, 'scn': t['scn'], 'ev': t['ev'], 'matched': matched,
                              'next': t['ev'][matched] if matched < len(t['ev']) else None,
-                             'deviation': explained.get(i)})
+                             'deviation': explained.get(i), 'stage_obj': stage})
     if stage.pairing:
         keyfn, obsfn = stage.pairing
         groups = {}
@@ -243,11 +271,13 @@ def finish(prop, tier, seed, out, t0, rule, assumptions, exhaustive, extra_cov=N
         seen.add(key)
         nviol += 1
         if nviol <= 25:
-            path = h.save_replay(prop, '%s_%s' % (r['stage'], key), r)
+            path = h.save_replay(prop, '%s_%s' % (r['stage'], key), {k: v for k, v in r.items() if k != 'stage_obj'})
             print('VIOLATION property=%s replay=%s' % (prop, path))
             nxt = json.dumps(r['next'])[:300] if r['next'] else 'end of trace (an invariant failed in the last state)'
             print('  stage=%s matched %d/%d events; first event the specification does not allow: %s' % (
                 r['stage'], r['matched'], len(r['ev']), nxt))
+            if nviol <= 3 and r.get('stage_obj') is not None:
+                print('  diagnosis: %s' % diagnose(r['stage_obj'], {'scn': r['scn'], 'ev': r['ev']}))
     if nviol > 25:
         print('  ... and %d more violating scenarios (not written out)' % (nviol - 25))
     cov = {'states': out.states, 'transitions': out.transitions, 'traces_validated_against_impl': out.traces,
